@@ -2050,6 +2050,124 @@ def _c18_blocked_sibling_harnesses(prop, tier):
     return out
 
 
+def _rand_program_harness(prop, k, mac):
+    """differential check over RANDOM programs (native family `rand_diff`): branches x steps x operators drawn from the
+    Option -> Option pool, operands plain or block captures, captures that read the NAME of another (or the same) branch,
+    `let` / `let mut` names, initial values that are blocks or can fail, optional final handler - against the staged
+    reference (captures of a step first, in branch / position order, then the branch expressions; a try macro stops after
+    the first step in which a branch is None).  Value always; event trace exactly (sync kinds) / as a multiset (spawn kinds)."""
+    import random
+    rng = random.Random(7919 * k + 13 + sum(ord(c) for c in mac))
+    is_try = mac.startswith("try")
+    is_spawn = "spawn" in mac
+    n = rng.choice([1, 2, 2, 3, 3])
+    ds = [rng.choice([1, 2, 2, 3]) for _ in range(n)]
+    names = [rng.choice([None, None, "let", "let mut"]) for _ in range(n)]
+    b = ""
+    for i in range(n):
+        b += "    let a%d: u8 = kani::any();\n" % i
+    brs = []
+    steps = {}    # (s, i) -> list of (ref, [(var, block_text or None, plain_text)], key)
+    nev = 0
+    for i in range(n):
+        kind = rng.choice(["plain", "block", "cond"])
+        if kind == "block":
+            init = cap(i, 0, 0, 0, "Some(a%d)" % i)
+            nev += 1
+        elif kind == "cond":
+            init = "if a%d > 200 { None } else { Some(a%d) }" % (i, i)
+        else:
+            init = "Some(a%d)" % i
+        t = ("%s n%d = " % (names[i], i) if names[i] else "") + init
+        steps.setdefault((0, i), []).append(("@init@", [("c_%d_0_0_0" % i, init if kind == "block" else None, init)], (i, 0, 0)))
+        for s in range(ds[i]):
+            nops = rng.choice([0, 1, 2]) if s == 0 else rng.choice([1, 1, 2])
+            for p in range(1, nops + 1):
+                ops = HOIST_OPT(i, s, p)
+                name, m, r, bodies = ops[rng.randrange(len(ops))]
+                readers = [j for j in range(n) if names[j]]
+                operands = []
+                for kk, bd in enumerate(bodies):
+                    var = "c_%d_%d_%d_%d" % (i, s, p, kk)
+                    if name == "map" and s >= 1 and readers and rng.random() < 0.5:
+                        j = rng.choice(readers)
+                        blk = "{ ev(code(K_CAP, %d, %d, %d)); let snap: u8 = n%d.clone().unwrap_or(77); move |x: u8| { ev(code(K_CALL, %d, %d, %d)); x.wrapping_add(snap) } }" % (i, s, 2 * p + kk, j, i, s, p)
+                        refblk = blk.replace("n%d.clone()" % j, "v%d.clone()" % j)
+                        operands.append((var, blk, refblk))
+                        nev += 1
+                    elif rng.random() < 0.5:
+                        blk = cap(i, s, p, kk, bd)
+                        operands.append((var, blk, blk))
+                        nev += 1
+                    else:
+                        operands.append((var, None, bd))
+                mt = m
+                for kk, (var, blk, plain) in enumerate(operands):
+                    mt = mt.replace("{B%d}" % kk, blk if blk is not None else plain)
+                t += " %s%s" % ("~" if (p == 1 and s > 0) else "", mt)
+                steps.setdefault((s, i), []).append((r, operands, (i, s, p)))
+                nev += 2
+        brs.append(t)
+    handler = rng.random() < 0.3
+    if handler:
+        if is_try:
+            brs.append("map => |%s| %s" % (", ".join("x%d: u8" % i for i in range(n)), " ^ ".join("x%d.rotate_left(%d)" % (i, i) for i in range(n))))
+        else:
+            brs.append("then => |%s| %s" % (", ".join("x%d: Option<u8>" % i for i in range(n)), " ^ ".join("x%d.unwrap_or(%d).rotate_left(%d)" % (i, 100 + i, i) for i in range(n))))
+    prog = "%s! { %s }" % (mac, ", ".join(brs))
+    if is_try:
+        rty = "Option<u8>" if handler else "Option<%s>" % tupty("u8", n)
+    else:
+        rty = "u8" if handler else tupty("Option<u8>", n)
+    b += "    let r: %s = %s;\n" % (rty, prog)
+    b += "    reference_mode();\n"
+    b += "    let exp: %s = (|| {\n" % rty
+    for i in range(n):
+        b += "        #[allow(unused_mut, unused_assignments)] let mut v%d: Option<u8> = None;\n" % i
+    for s in range(max(ds)):
+        act = [i for i in range(n) if ds[i] > s]
+        b += "        // step %d: block operands first (branch by branch, position by position), then the branch expressions\n" % s
+        for i in act:
+            for (r, operands, key) in steps.get((s, i), []):
+                for (var, blk, ref) in operands:
+                    if blk is not None:
+                        b += "        let %s = %s;\n" % (var, ref)
+        for i in act:
+            for (r, operands, key) in steps.get((s, i), []):
+                if r == "@init@":
+                    var, blk, ref = operands[0]
+                    b += "        v%d = %s;\n" % (i, var if blk is not None else ref)
+                    continue
+                rr = r
+                for kk, (var, blk, ref) in enumerate(operands):
+                    rr = rr.replace("{%d}" % kk, var if blk is not None else "(%s)" % ref)
+                b += "        v%d = %s;\n" % (i, _apply_ref("v%d" % i, rr))
+        if is_try:
+            for i in act:
+                b += "        if v%d.is_none() { return None; }\n" % i
+    if is_try:
+        vals = ["v%d.unwrap()" % i for i in range(n)]
+        b += "        Some(%s)\n    })();\n" % (" ^ ".join("%s.rotate_left(%d)" % (vals[i], i) for i in range(n)) if handler else tup(vals))
+    else:
+        b += "        %s\n    })();\n" % (" ^ ".join("v%d.unwrap_or(%d).rotate_left(%d)" % (i, 100 + i, i) for i in range(n)) if handler else tup("v%d" % i for i in range(n)))
+    b += "    assert!(r == exp, \"rand_diff: value differs from the staged reference\");\n"
+    if is_spawn:
+        b += "    assert!(traces_same_multiset(), \"rand_diff: the set of evaluated expressions differs from the staged reference\");\n"
+    else:
+        b += trace_eq(min(nev + 2, 46))
+    hn = "%s_rand_%s_%d" % (prop.lower(), mac, k)
+    return Harness(hn, harness_fn(hn, b), prog, note="random program #%d" % k)
+
+
+def _rand_diff_harnesses(prop, tier):
+    out = []
+    per = 12 if tier == "quick" else 60
+    for mac in ("join", "try_join", "join_spawn", "try_join_spawn"):
+        for k in range(per):
+            out.append(_rand_program_harness(prop, k, mac))
+    return out
+
+
 def _c17_spawn_nest_harnesses(prop):
     """C17 nesting under the SPAWNING kinds (native only): a spawning macro nested inside a branch of another spawning
     macro - the inner expansion becomes part of a spawned thread's closure / a spawned task's future and has to satisfy
@@ -2067,6 +2185,15 @@ def _c17_spawn_nest_harnesses(prop):
          "(u8, u8)", "(1u8, a.wrapping_add(6))"),
         ("async_spawn_in_operand_closure", "join_async_spawn! { async { 1u8 }, async { 2u8 } -> move |f| async move { let x: u8 = f.await; let (p, q) = %s.await; p.wrapping_add(q).wrapping_add(x) } }" % inner_a,
          "(u8, u8)", "(1u8, a.wrapping_add(6))"),
+    ]
+    # multi-step inner and outer macros over Copy values with two branches still active after the `~`
+    inner_ms = "join_async_spawn! { async move { a } ~|> |x: u8| x.wrapping_add(1), async { 3u8 } ~|> |x: u8| x.wrapping_add(1) }"
+    progs += [
+        ("async_spawn_multi_step", inner_ms, "(u8, u8)", "(a.wrapping_add(1), 4u8)"),
+        ("async_spawn_multi_step_nested", "join_async_spawn! { async { 1u8 } ~|> |x: u8| x.wrapping_add(1), async move { %s.await } ~|> |(p, q): (u8, u8)| p.wrapping_add(q) }" % inner_ms,
+         "(u8, u8)", "(2u8, a.wrapping_add(5))"),
+        ("try_async_spawn_multi_step_in_handler", "try_join_async_spawn! { async move { Ok::<u8, u8>(a) } ~|> |r: Result<u8, u8>| r, async { Ok::<u8, u8>(3) } ~|> |r: Result<u8, u8>| r, and_then => |p: u8, q: u8| async move { let (s, t) = %s.await; Ok::<u8, u8>(p.wrapping_add(q).wrapping_add(s).wrapping_add(t)) } }" % inner_ms.replace("async move { a }", "async move { p }").replace("async { 3u8 }", "async move { q }"),
+         "Result<u8, u8>", "Ok(a.wrapping_add(3).wrapping_add(a.wrapping_add(1)).wrapping_add(4))"),
     ]
     for (name, prog, rty, exp) in progs:
         b = "    let a: u8 = kani::any();\n"
@@ -2092,6 +2219,8 @@ def native_families(pid, tier):
     quick = tier == "quick"
     if pid == "C17":
         out += _c17_spawn_nest_harnesses(pid)
+    if pid in ("C01", "C10", "C11", "C12"):
+        out += _rand_diff_harnesses(pid, tier)
     if pid == "C18":
         out += _c18_blocked_sibling_harnesses(pid, tier)
         out += _c18_capture_handler_harnesses(pid, tier)
